@@ -117,8 +117,13 @@ def ob_resample(ctx, D, a, which):
         new = g.resample(which)
         t = (g.spacing().min() if which == "min" else g.spacing().max()).expand(D)
     _same_frame(ctx, new, g, f"resample({which})")
-    ctx.eq(new.spacing(), t, "resample: spacing is the requested one")
-    ctx.true(new.extent() >= g.extent(), "resample: extent does not shrink")
+    if which == "tensor":
+        ctx.eq(new.spacing(), t, "resample: spacing is the requested one")
+    else:
+        # Grid.resample returns the grid itself when the requested spacing is allclose to the current one (isotropic
+        # grids with 'min' / 'max'): on that path the spacing equals the requested one only up to that tolerance
+        ctx.true((new.spacing() - t).abs() <= 2e-5 * t + 1e-7, "resample: spacing is the requested one (up to the allclose tolerance of the early return)")
+    ctx.true(new.extent() >= g.extent() * (1 - 2e-5) - 1e-7, "resample: extent does not shrink")
     if which == "tensor":
         ctx.true(new.extent() < g.extent() + t, "resample: extent grows by less than one spacing")
 
